@@ -27,6 +27,8 @@ def h_gen(c):
             kw[k] = dec(c[k])
     if "cheb_samples" in c:
         kw["cheb_samples"] = int(c["cheb_samples"])
+    if c.get("float_degree") and "degree" in kw:
+        kw["degree"] = float(kw["degree"])          # the command line hands every number over as a float (20 -> 20.0)
     out = getattr(P, cls)().generate(**kw)
     scale = None
     typ = type(out).__name__
@@ -94,6 +96,7 @@ def h_fpsearch(c):
     """a sequence of FPSearch().generate calls executed in order in one process"""
     from pyqsp.phases import FPSearch
     out = []
+    held = []
     for call in c["calls"]:
         kw = {}
         for k in ("delta", "gamma"):
@@ -101,8 +104,12 @@ def h_fpsearch(c):
                 kw[k] = dec(call[k])
         if call.get("return_alpha"):
             kw["return_alpha"] = True
-        out.append(enc(numpy.asarray(FPSearch().generate(call["d"], **kw), dtype=float)))
-    return out
+        res = FPSearch().generate(call["d"], **kw)
+        held.append(res)                       # the caller keeps every returned vector
+        out.append(enc(numpy.asarray(res, dtype=float)))
+    # the vectors as they are after all later calls (a caller generating a table first and using it afterwards)
+    late = [enc(numpy.asarray(r, dtype=float)) for r in held]
+    return {"out": out, "changed_later": [k for k, (a, b) in enumerate(zip(out, late)) if a != b]}
 
 
 HANDLERS = {"gen": h_gen, "fit_reference": h_fit_reference, "fpsearch": h_fpsearch}
